@@ -378,6 +378,38 @@ func runC18(c *Ctx) {
 			}
 		}
 	}
+	// (4b) a handle that Add hands out has been through heap.Push: the heap maintains the element's
+	// index (Push sets it, Remove/Pop set it to -1) and Cancel removes by that index. A handle that was
+	// never pushed still carries the zero index, so cancelling it removes whatever sits at the top of
+	// the heap. Every return of a non-nil result in Add is reached only through the push.
+	if fd := p.FuncDecl(pkg, "Queue", "Add"); fd != nil {
+		key := pkg + ".Queue.Add"
+		f := newFuncCFG(p, info, fd.Body, key)
+		nRet, bad := 0, ""
+		var wit []string
+		for _, rpt := range f.FindOwn(func(n ast.Node) bool { _, ok := n.(*ast.ReturnStmt); return ok }) {
+			rs := f.nodeAt(rpt).(*ast.ReturnStmt)
+			if len(rs.Results) == 1 && isNil(info, rs.Results[0]) {
+				continue
+			}
+			if len(rs.Results) == 0 {
+				// named result: nil unless assigned; judged like a non-nil return
+			}
+			nRet++
+			if w, found := f.PathFromEntryAvoiding(rpt, heapCall("Push"), nil); found {
+				bad = f.PosOf(rpt) + ": Add hands out a handle that was never pushed on the heap: its index is still the zero value, so Cancel (or a re-schedule of a TaskExecutor identifier) removes the element at the top of the heap instead - an unrelated task is never delivered"
+				wit = w
+			}
+		}
+		switch {
+		case nRet == 0:
+			r.Fail("handle/returned-only-after-push", key, p.posStr(fd.Pos()), "no return of a handle found in Add (vacuous)")
+		case bad != "":
+			r.Fail("handle/returned-only-after-push", key, p.posStr(fd.Pos()), bad, wit...)
+		default:
+			r.Pass("handle/returned-only-after-push", key, p.posStr(fd.Pos()), fmt.Sprintf("%d return(s) of a handle, each reached only through heap.Push", nRet))
+		}
+	}
 	// (5) executor
 	checkGoWaitGroup(r, p, "wg/add-before-go", pkg, p.FuncDecl(pkg, "Executor", "startBackgroundWorkers"), 1)
 	if fd := p.FuncDecl(pkg, "Executor", "startBackgroundWorkers"); fd != nil {
